@@ -168,7 +168,7 @@ def main():
         "coverage": {
             "states": max(1, tot("states")), "transitions": max(1, tot("transitions")),
             "traces_validated_against_impl": tot("executions"),
-            "evaluations": max(1, tot("executions")), "distinct_nontrivial": tot("distinct_conflict_outcomes"),
+            "evaluations": max(1, tot("executions")), "distinct_nontrivial": sum(int((r["res"] or {}).get("distinct_conflict_outcomes") or (r["res"] or {}).get("distinct_outcomes") or 0) for r in results),
             "rule": P.get("rule", "every schedule of each leg's closed harness within the deviation bound (cost model: DESIGN.md section 4) "
                                   "is executed on the real oneTBB code; an execution is non-trivial if two threads touched one address with at least one write "
                                   "(or, for single-threaded legs, if it produced a distinct observable outcome); distinct = distinct outcome strings among those"),
